@@ -63,17 +63,25 @@ func genScope(r *rand.Rand, b int) *scopeArgs {
 }
 
 // probe is the user type whose methods look at the options in force inside the call.
-type probe struct {
-	outcome string
-	inside  **vector
-	X       int
-}
+// What it does is steered through package variables (a worker runs one case at a time),
+// so that zero values created by the library behave like the planted one.
+type probe struct{ X int }
+
+var (
+	probeOutcome string
+	probeInside  *vector
+	probeCalls   int
+)
 
 var errProbe = errors.New("probe: user error")
 
 func (p probe) MarshalJSONTo(e *jsontext.Encoder) error {
-	*p.inside = observe(e.Options())
-	switch p.outcome {
+	probeCalls++
+	if probeCalls > 1 {
+		return e.WriteToken(jsontext.String("<probe again>"))
+	}
+	probeInside = observe(e.Options())
+	switch probeOutcome {
 	case "error":
 		return errProbe
 	case "panic":
@@ -83,14 +91,43 @@ func (p probe) MarshalJSONTo(e *jsontext.Encoder) error {
 }
 
 func (p *probe) UnmarshalJSONFrom(d *jsontext.Decoder) error {
-	*p.inside = observe(d.Options())
-	switch p.outcome {
+	probeCalls++
+	if probeCalls > 1 {
+		return d.SkipValue()
+	}
+	probeInside = observe(d.Options())
+	switch probeOutcome {
 	case "error":
 		return errProbe
 	case "panic":
 		panic(run.UserPanic{Tag: "probe"})
 	}
 	return d.SkipValue()
+}
+
+// guard runs fn: a harness UserPanic is reported as user=true, a panic raised inside the
+// library is recorded as a violation and reported as lib=true, anything else propagates.
+func guard(w *run.W, fn func()) (user, lib bool) {
+	defer func() {
+		if r := recover(); r != nil {
+			if _, ok := r.(run.UserPanic); ok {
+				user = true
+				return
+			}
+			origin, isLib, stack := run.PanicOrigin()
+			if !isLib {
+				panic(r)
+			}
+			lib = true
+			msg := fmt.Sprint(r)
+			if i := strings.IndexAny(msg, "0123456789["); i > 0 && strings.HasPrefix(msg, "runtime error: ") {
+				msg = msg[:i] + "…"
+			}
+			w.Violate("library-panic", map[string]string{"func": origin, "panic": msg}, "library panicked: %v\n%s", r, run.Trunc(stack, 2500))
+		}
+	}()
+	fn()
+	return
 }
 
 type withStringField struct {
@@ -212,14 +249,14 @@ func runScope(w *run.W, a *scopeArgs) {
 		}
 		return m
 	}
-	var inside *vector
-	p := probe{outcome: a.Outcome, inside: &inside}
+	p := probe{X: 1}
+	probeOutcome, probeInside, probeCalls = a.Outcome, nil, 0
 	if a.Outcome == "unsupported" {
-		p.outcome = "ok"
+		probeOutcome = "ok"
 	}
 	var before, after *vector
 	var callErr error
-	var userPanic bool
+	var userPanic, libPanic bool
 	var nextGot, nextWant []byte
 	nextChecked := false
 
@@ -238,11 +275,11 @@ func runScope(w *run.W, a *scopeArgs) {
 			e.WriteToken(jsontext.String("second"))
 		}
 		before = observe(e.Options())
-		userPanic, _ = w.Guard(func() {
+		userPanic, libPanic = guard(w, func() {
 			callErr = json.MarshalEncode(e, scopeValue(a.Shape, p, a.Outcome == "unsupported"), callOpts...)
 		})
 		after = observe(e.Options())
-		if callErr == nil && !userPanic && a.Pos == "top" {
+		if callErr == nil && !userPanic && !libPanic && a.Pos == "top" {
 			// next call on the same encoder vs a fresh encoder with the same construction options
 			n0 := buf.Len()
 			e1 := json.MarshalEncode(e, sampleValue, json.Deterministic(true))
@@ -287,11 +324,11 @@ func runScope(w *run.W, a *scopeArgs) {
 			d.ReadToken()
 		}
 		before = observe(d.Options())
-		userPanic, _ = w.Guard(func() {
+		userPanic, libPanic = guard(w, func() {
 			callErr = json.UnmarshalDecode(d, target, callOpts...)
 		})
 		after = observe(d.Options())
-		if callErr == nil && !userPanic && a.Pos == "top" {
+		if callErr == nil && !userPanic && !libPanic && a.Pos == "top" {
 			var x1, x2 any
 			e1 := json.UnmarshalDecode(d, &x1)
 			e2 := json.UnmarshalDecode(jsontext.NewDecoder(strings.NewReader(sampleText), buildOpts(a.Base)...), &x2)
@@ -306,7 +343,11 @@ func runScope(w *run.W, a *scopeArgs) {
 		return
 	}
 
+	inside := probeInside
 	switch {
+	case libPanic:
+		w.Count("scope_outcome_library_panic", 1)
+		return // already reported; the coder was abandoned mid-call by the library itself
 	case userPanic:
 		if len(a.Call) > 0 {
 			w.Count("scope_outcome_panic_with_call_options", 1)
